@@ -221,6 +221,7 @@ func tpMenu() []tpGen {
 		tpGen{"grease_quic_bit", func() tls.TransportParameter { return &tls.GREASEQUICBit{} }, 0x2ab2, func() []byte { return nil }},
 		tpGen{"grease(len 0)", func() tls.TransportParameter { return &tls.GREASETransportParameter{} }, 0, func() []byte { return nil }},
 		tpGen{"grease(len 5)", func() tls.TransportParameter { return &tls.GREASETransportParameter{Length: 5} }, 0, nil},
+		tpGen{"grease(override that is not a GREASE id)", func() tls.TransportParameter { return &tls.GREASETransportParameter{IdOverride: 0x1234, Length: 5} }, 0, nil},
 		tpGen{"grease(override)", func() tls.TransportParameter {
 			return &tls.GREASETransportParameter{IdOverride: 27 + 31*1000, ValueOverride: []byte{1, 2, 3}}
 		}, 27 + 31*1000, func() []byte { return []byte{1, 2, 3} }},
@@ -286,6 +287,17 @@ func c24Params(maxLen int) *explore.Scenario {
 			if len(tps) != len(gens) {
 				r.Violate("C24|params|count", "list %v: %d entries on the wire", names, len(tps))
 				return
+			}
+			// what was parsed equals the list: each element, asked again, names the id that went out
+			for i := range list {
+				var again uint64
+				if p := catch(func() { again = list[i].ID() }); p != "" {
+					r.Violate("C24|params|panic", "list %v: ID() of entry %d after marshalling: %s", names, i, p)
+					return
+				}
+				if again != tps[i].ID {
+					r.Violate("C24|params|id-not-the-elements", "list %v: entry %d went out with id %#x, the element now says %#x", names, i, tps[i].ID, again)
+				}
 			}
 			// ids must be minimally encoded too: re-encode with the reference and compare
 			var ref []byte
